@@ -14,7 +14,7 @@ verus! {
 
 // ---------------------------------------------------------------- TRUSTED stand-ins
 pub trait Network {}
-pub trait ShredNetwork: Network {}
+pub trait ShredNetwork: Network + ShredNet {}
 
 // rand::rngs::StdRng: a deterministic generator whose whole future is a function of its 32-byte seed
 #[verifier::external_body]
@@ -65,6 +65,49 @@ impl RelayList {
 /*@ extract src/disseminator/rotor.rs :: struct Rotor
 rewrite[R8] `Arc<[ValidatorIndex]>` => `RelayList`
 @*/
+
+
+// ---------------------------------------------------------------- shreds, addresses and the network as a ghost log (for send / forward)
+/*@ extract src/types/slice_index.rs :: struct SliceIndex
+derive Clone, Copy
+traits Eq
+@*/
+/*@ extract src/shredder/shred_index.rs :: struct ShredIndex
+derive Clone, Copy
+traits Eq
+@*/
+pub struct SliceHeader { pub slot: Slot, pub slice_index: SliceIndex, pub is_last: bool }
+pub struct ShredPayload { pub header: SliceHeader, pub shred_index: ShredIndex }
+#[verifier::external_body] pub struct Shred { _p: () }
+impl Shred {
+    pub uninterp spec fn spec_payload(&self) -> ShredPayload;
+    #[verifier::external_body]
+    pub fn payload(&self) -> (r: &ShredPayload) ensures *r == self.spec_payload() { unimplemented!() }
+}
+#[verifier::external_body] #[derive(Clone, Copy)] pub struct SocketAddr { _p: () }
+#[verifier::external_body] #[derive(Debug)] pub struct IoError { _p: () }
+// `v.disseminator_address` (R8; the field is not part of the ValidatorInfo stand-in): an injective function of the validator
+pub uninterp spec fn spec_addr(v: ValidatorInfo) -> SocketAddr;
+#[verifier::external_body]
+pub fn verif_addr(v: &ValidatorInfo) -> (r: SocketAddr) ensures r == spec_addr(*v) { unimplemented!() }
+// what was handed to the network layer: (shred, recipients) per call
+pub struct SendRecord { pub shred: Shred, pub to: Seq<SocketAddr> }
+pub trait ShredNet: Sized {
+    spec fn sent(&self) -> Seq<SendRecord>;
+    fn verif_send(&mut self, shred: &Shred, to: SocketAddr) -> (r: Result<(), IoError>)
+        ensures final(self).sent() == old(self).sent().push(SendRecord { shred: *shred, to: Seq::<SocketAddr>::empty().push(to) });
+    fn verif_send_to_many(&mut self, shred: &Shred, to: Vec<SocketAddr>) -> (r: Result<(), IoError>)
+        ensures final(self).sent() == old(self).sent().push(SendRecord { shred: *shred, to: to@ });
+}
+// the recipients of a relay broadcast: every validator except the relay itself and the slot's leader, in index order
+pub open spec fn spec_recipients(vals: Seq<ValidatorInfo>, n: int, relay: int, leader: int) -> Seq<SocketAddr>
+    decreases n
+{
+    if n <= 0 { Seq::<SocketAddr>::empty() }
+    else if n - 1 != relay && n - 1 != leader { spec_recipients(vals, n - 1, relay, leader).push(spec_addr(vals[n - 1])) }
+    else { spec_recipients(vals, n - 1, relay, leader) }
+}
+pub open spec fn spec_leader_index(ei: &EpochInfo, slot: Slot) -> int { (slot.0 / SLOTS_PER_WINDOW) as int % (ei.validators@.len() as int) }
 
 // ---------------------------------------------------------------- C16 specification
 pub uninterp spec fn spec_be64(x: u64) -> Seq<u8>;
@@ -192,6 +235,105 @@ requires
         self.cache_ok(),
 ensures
         r@ == self.spec_relays(slot, 0),
+@*/
+}
+
+impl SliceIndex {
+/*@ extract src/types/slice_index.rs :: impl SliceIndex/fn inner
+ret r
+ensures
+        r == self.0,
+@*/
+}
+impl ShredIndex {
+/*@ extract src/shredder/shred_index.rs :: impl ShredIndex/fn inner
+ret r
+ensures
+        r == self.0,
+@*/
+}
+impl EpochInfo {
+/*@ extract src/consensus/epoch_info.rs :: impl EpochInfo/fn leader
+props C16
+ret r
+requires
+        // an epoch has at least one validator (otherwise `% len` divides by zero)
+        self.validators@.len() > 0,
+ensures
+        // [C16.leader_is_a_function_of_the_window]
+        *r == self.validators@[spec_leader_index(self, slot)],
+@*/
+}
+
+impl<N: ShredNetwork, S: QuorumSamplingStrategy> Rotor<N, S> {
+    // what Rotor's constructors configure and C17 states: committees have one seat per shred of a slice, all seats go to members
+    pub open spec fn sampler_ok(&self) -> bool {
+        forall|st: Seq<u8>| (#[trigger] self.sampler.spec_quorum(st)).len() == TOTAL_SHREDS
+            && forall|i: int| 0 <= i < TOTAL_SHREDS ==> (self.sampler.spec_quorum(st)[i].0 as int) < self.epoch_info.epoch.validators@.len()
+    }
+    pub open spec fn spec_relay(&self, shred: Shred) -> ValidatorIndex {
+        self.spec_relays(shred.spec_payload().header.slot, shred.spec_payload().header.slice_index.0)[shred.spec_payload().shred_index.0 as int]
+    }
+
+/*@ extract src/disseminator/rotor.rs :: impl Rotor<N, S>/fn sample_relay
+props C16
+ret r
+rewrite[R8] `self.sample_relays(slot, slice)[shred]` => `self.sample_relays(slot, slice).verif_index(shred)`
+requires
+        self.cache_ok() && self.sampler_ok(),
+        shred.spec_payload().shred_index.0 < TOTAL_SHREDS,
+ensures
+        // [C16.relay_is_a_function_of_slot_slice_and_shred_index_only]
+        r == self.spec_relay(*shred),
+        (r.0 as int) < self.epoch_info.epoch.validators@.len(),
+@*/
+
+/*@ extract src/disseminator/rotor.rs :: impl Rotor<N, S>/fn send_as_leader
+props C16
+ret r
+elide-async
+sig `&self` => `&mut self`
+sig `std::io::Result<()>` => `Result<(), IoError>`
+rewrite[R8] `self.network.send(shred, v.disseminator_address)` => `self.network.verif_send(shred, verif_addr(v))`
+requires
+        old(self).cache_ok() && old(self).sampler_ok(),
+        shred.spec_payload().shred_index.0 < TOTAL_SHREDS,
+ensures
+        // [C16.leader_sends_each_shred_to_its_one_relay]
+        final(self).network.sent() == old(self).network.sent().push(SendRecord { shred: *shred,
+            to: Seq::<SocketAddr>::empty().push(spec_addr(old(self).epoch_info.epoch.validators@[old(self).spec_relay(*shred).0 as int])) }),
+@*/
+
+/*@ extract src/disseminator/rotor.rs :: impl Rotor<N, S>/fn broadcast_if_relay
+props C16
+ret r
+elide-async
+sig `&self` => `&mut self`
+sig `std::io::Result<()>` => `Result<(), IoError>`
+rewrite[R4] `let to = (0..validators.len()) .filter(move |i|` => `let mut to: Vec<SocketAddr> = Vec::new(); let mut verif_k: usize = 0; while verif_k < validators.len() { let i = &verif_k; if (`
+rewrite[R4] `) .map(move |i| validators[i].disseminator_address);` => `) { to.push(verif_addr(&validators[verif_k])); } verif_k += 1; }`
+rewrite[R8] `self.network.send_to_many(shred, to)` => `self.network.verif_send_to_many(shred, to)`
+requires
+        old(self).cache_ok() && old(self).sampler_ok(),
+        shred.spec_payload().shred_index.0 < TOTAL_SHREDS,
+        old(self).epoch_info.epoch.validators@.len() > 0,
+        // type invariant of EpochInfo: validator i has id i
+        forall|i: int| 0 <= i < old(self).epoch_info.epoch.validators@.len() ==> (#[trigger] old(self).epoch_info.epoch.validators@[i]).id.0 == i,
+ensures
+        // [C16.only_the_relay_broadcasts]
+        old(self).epoch_info.own_id != old(self).spec_relay(*shred) ==> final(self).network.sent() == old(self).network.sent(),
+        // [C16.relay_broadcasts_once_to_everyone_but_itself_and_the_leader]
+        old(self).epoch_info.own_id == old(self).spec_relay(*shred) ==> final(self).network.sent() == old(self).network.sent().push(SendRecord { shred: *shred,
+            to: spec_recipients(old(self).epoch_info.epoch.validators@, old(self).epoch_info.epoch.validators@.len() as int,
+                                old(self).spec_relay(*shred).0 as int, spec_leader_index(&old(self).epoch_info.epoch, shred.spec_payload().header.slot)) }),
+loop 0
+        invariant
+            verif_k <= validators@.len() && validators@ == self.epoch_info.epoch.validators@,
+            forall|i: int| 0 <= i < validators@.len() ==> (#[trigger] validators@[i]).id.0 == i,
+            leader.0 == spec_leader_index(&self.epoch_info.epoch, shred.spec_payload().header.slot),
+            (relay.0 as int) < validators@.len(),
+            to@ == spec_recipients(validators@, verif_k as int, relay.0 as int, leader.0 as int),
+        decreases validators@.len() - verif_k,
 @*/
 }
 
